@@ -15,6 +15,7 @@ fn p8(nx: i32, ny: i32) -> Point {
 //@ desc: two points on the eighth-unit lattice within a 64x64-unit window, compared at the origin and after adding the same cell offset (k <= 400, n <= 200): Point::cmp, ==, < give identical answers, and they agree with the exact integer comparison of the lattice numerators in (y, x) order (so two distinct lattice points are never 'equal', at any position)
 //@ encodes: Point::cmp, Point::eq, Point::partial_cmp, util::ord
 #[kani::proof]
+#[kani::stub(std::io::_print, crate::kstub::noop_print)]
 fn o6_1_point_order_shift() {
     let (ax, ay, bx, by) = (any_in(0, 512), any_in(0, 512), any_in(0, 512), any_in(0, 512));
     let k = any_in(0, 400);
@@ -37,6 +38,7 @@ fn o6_1_point_order_shift() {
 //@ desc: util::ord on ALL pairs of f32: returns Equal/Greater/Less exactly as the IEEE comparison does for non-NaN operands and reaches its unreachable!() iff an operand is NaN (checked: never for non-NaN operands, infinities included)
 //@ encodes: util::ord, util::opt_ord
 #[kani::proof]
+#[kani::stub(std::io::_print, crate::kstub::noop_print)]
 fn o1_1_ord_trichotomy() {
     let a: f32 = kani::any();
     let b: f32 = kani::any();
